@@ -282,6 +282,24 @@ namespace rkverif {
         enki::AtomicAdd(&waiting, -1);
       }
 
+      void publishSpinUntilRoom(int v)  // R-C02-11: a full pipe makes the caller wait for other threads
+      {
+        while (!pipe.WriterTryWriteFront(v))
+          wake();
+        wake();
+      }
+
+      void publishOrRunInline(int v, Task *t)  // R-C02-11 accepted: on a full pipe the thread runs the work itself
+      {
+        if (!pipe.WriterTryWriteFront(v)) {
+          enki::TaskSetPartition range = {0, 1};
+          t->ExecuteRange(range, 0);
+        } else {
+          __sync_synchronize();
+          wake();
+        }
+      }
+
       void publishNoWake(int v)  // the task sits in the pipe, nobody is woken
       {
         if (!pipe.WriterTryWriteFront(v))
@@ -342,6 +360,8 @@ namespace rkverif {
       hs.publishFenceThenWake(1);
       hs.sleepPlainIncrement();
       hs.publishNoWake(1);
+      hs.publishSpinUntilRoom(1);
+      hs.publishOrRunInline(1, nullptr);
       hs.wakeThenPublish(1);
       MovesOut m;
       Copies k;
